@@ -11,6 +11,7 @@ ARITH_TRAITS = ('core::ops::arith::Add::add', 'core::ops::arith::Sub::sub', 'cor
 INDEX_TRAITS = ('core::ops::index::Index::index', 'core::ops::index::IndexMut::index_mut')
 SLICE_PANICS = ('copy_from_slice', 'copy_within', 'split_at', 'split_at_mut', 'swap', 'clone_from_slice', 'remove', 'swap_remove', 'insert', 'drain', 'truncate_front')
 BITS = {'u8': 8, 'i8': 8, 'u16': 16, 'i16': 16, 'u32': 32, 'i32': 32, 'u64': 64, 'i64': 64, 'u128': 128, 'i128': 128, 'usize': 64, 'isize': 64}
+COMMUTATIVE = ('Add', 'Mul', 'BitOr', 'BitAnd', 'BitXor', 'Eq', 'Ne')
 NARROW = {'u8': 8, 'u16': 16, 'bool': 1, 'u32': 32}
 
 
@@ -54,6 +55,10 @@ def operand_sig(body, o, depth=0):
     """stable textual description of an operand: user names and field paths, constants, call results"""
     if o is None:
         return '?'
+    # a constant reads the same whether it is a literal, a named constant or a widening of one (`usize::from(K)`)
+    v = q.int_value(body, o) if depth < 4 else None
+    if v is not None:
+        return str(v)
     if o['k'] == 'const':
         d = o.get('def')
         if d:
@@ -114,7 +119,11 @@ def sem_sig(body, s, depth=0):
         return '(%s as %s)' % (sem_sig(body, s.extra[0], depth + 1), s.extra[1])
     if s.kind == 'bin':
         o = s.extra
-        return '%s(%s, %s)' % (o[1].replace('WithOverflow', ''), operand_sig(body, o[2], depth + 1), operand_sig(body, o[3], depth + 1))
+        opn = o[1].replace('WithOverflow', '')
+        xs = [operand_sig(body, o[2], depth + 1), operand_sig(body, o[3], depth + 1)]
+        if opn in COMMUTATIVE:
+            xs.sort()
+        return '%s(%s, %s)' % (opn, xs[0], xs[1])
     if s.kind == 'agg':
         return 'agg'
     return s.kind
@@ -177,6 +186,13 @@ def _wb_sem(body, s, depth):
             return 8
         if c.endswith('read_u16_be') or c.endswith('read_u16_le'):
             return 16
+        if s.cs.declared in ('core::convert::From::from', 'core::convert::Into::into') and s.cs.args and not s.proj and not s.cs.dest['p'] and body.locals[s.cs.dest['l']] in BITS:
+            # lossless integer widening (`usize::from(x)` / `u32::from(x)`): as wide as its argument
+            a = s.cs.args[0]
+            w = width_bounded(body, a, depth + 1)
+            if w is None:
+                w = NARROW.get(ty_of(body, a))
+            return w
         return None
     if s.kind == 'bin':
         o = s.extra
@@ -227,7 +243,10 @@ class Site:
         if ctx is not None:
             # the callback of an iterator adapter belongs to the function that drives the iterator
             self.fn = body.prog.logical_name(ctx[0])
-        self.sig = '%s(%s)' % (op, ', '.join(operand_sig(body, o) for o in ops)) if ops else op
+        sigs = [operand_sig(body, o) for o in ops]
+        if kind == 'assert' and op.split(':')[-1] in COMMUTATIVE and len(sigs) == 2:
+            sigs.sort()
+        self.sig = '%s(%s)' % (op, ', '.join(sigs)) if ops else op
         self.key = '%s | %s | %s' % (self.fn, kind, self.sig)
         self.discharge = None
 
@@ -276,6 +295,10 @@ def auto_discharge(s):
         return 'compile-time constant: an overflow is a compile error'
     if s.mac.startswith('tokio:') and 'select' in s.mac:
         return 'inside the tokio::select! expansion (trusted: tokio; branch masks are 1 << literal, start % literal)'
+    if s.kind == 'arith-trait' and (s.cs.callee or '').startswith('<tokio::time::instant::Instant as core::ops::arith::Add<core::time::Duration>>::add') and len(s.ops) == 2:
+        a0, a1 = q.sem(b, s.ops[0]), q.sem(b, s.ops[1])
+        if a0.kind == 'call' and (a0.cs.callee or '').endswith('Instant::now') and a1.kind == 'call' and not a1.proj and (a1.cs.callee or '').startswith('rodbus::retry::RetryStrategy::after_'):
+            return 'now + the retry delay just chosen by the local RetryStrategy (configuration, not peer input)'
     if s.kind != 'assert':
         return None
     node = ('b', s.block)
